@@ -6,11 +6,21 @@ ROOT = os.path.dirname(os.path.abspath(__file__))
 ALL = ["C%02d" % i for i in range(1, 21)]
 
 CLAIMED = {
+ "C17": dict(
+   text="Lean 4 theorems for both suites: sign/verify completeness; key, message and component binding of BBS signatures and exponent binding of PS signatures; proof-of-knowledge completeness for every partition; special soundness of the recomputed commitments for response vectors of the checked length, with the extracted relation shown to be a signature on the full vector; the over-long-vector theorem explaining the repaired length check. The model's verify / recomputed commitment / index→response lookup are compared with the real code on hand-made keys, signatures and proofs whose discrete logs are known (honest and 15 adversarial variants), and the real signer/prover is judged by the property's oracle on every partition.",
+   note="Trusted: Lean kernel + standard axioms; pairing equations are read through the secret key (bilinearity and non-degeneracy of BLS12-381); computational unforgeability (q-SDH, PS assumption, forking lemma) is not formalised; hash-derived generators are treated as independent.",
+   technique="Lean 4 proof (Σ-protocol algebra over truncating msm) + differential correspondence in discrete-log space",
+   design="§7 C17"),
  "C18": dict(
    text="Lean 4 theorems over the model of the claim codecs (zero-centring is translation by 2^63 on all of i64, hence strictly monotone, injective and invertible; ≤31-byte packing round-trips and is injective; byte-codec round trips; hash-encoded claims are collision-free up to an exhibited hash collision) for all inputs, plus value-by-value differential correspondence of every model function with the real code and oracle checks on the real code.",
    note="Trusted: Lean kernel + propext/Quot.sound/Classical.choice; SHAKE-256 is a parameter (collision resistance assumed); the model is hand-written and tied to /repo by the M1 stream (≈19k comparisons per quick run); text-codec round trip is checked by correspondence + oracle, not yet by a theorem.",
    technique="Lean 4 proof over executable model + differential correspondence with the Rust code",
    design="§7 C18"),
+ "C03": dict(
+   text="Lean 4 completeness theorems for every sub-protocol as coded (BBS and PS proofs of knowledge for every revealed/hidden partition over the zip-truncating msm, commitment, ElGamal, per-byte proofs, byte-sum check, equality): the verifier's recomputation from honest responses equals what the honest prover hashed, for all witnesses, randomness and challenges. The composition is exercised on the real code: random well-formed scenarios over all statement kinds, 1..3 credentials, both suites, shuffled statement order, chained equalities, before and after BARE / JSON / CBOR round trips.",
+   note="Trusted: Lean kernel + standard axioms; bulletproofs / AES-GCM completeness; 'prover and verifier append identical transcript items in identical order' is checked by running the real create/verify on generated scenarios (oracle), not proved — there is no executable Lean model of Presentation::create yet.",
+   technique="Lean 4 proof of per-protocol completeness + honest-run oracle on generated statement graphs",
+   design="§7 C03"),
  "C13": dict(
    text="Lean 4 theorems: the registry state machine (ordered sets + accumulator value, as coded after the atomicity repairs) refines an abstract status map never/active/revoked for every operation and, by induction, every history; an erroring operation returns the identical state; revoked is absorbing (never re-issued, never refreshed); the published value is V0 divided by (h(y)+α) exactly once per revoked identifier in every reachable state; every handle handed out verifies. Tied to the real Issuer (both suites) by an exhaustive prefix tree over a 17-operation alphabet plus random long histories, comparing return class, ordered sets, value and the verdict of every handle ever issued after every operation.",
    note="Trusted: Lean kernel + standard axioms; pairing check read as (y+α)•C = V; serde persist/restore is the identity on the modelled state (checked on the real code by JSON round trip at every position, not proved); claim validation and signing are abstracted to 'succeeds / fails' in this model (C15/C16 cover them).",
